@@ -38,6 +38,10 @@ def check_cache(
     # names) and over the node's output names: renamed inputs or differently named
     # outputs of the same function must not share an entry.
     identity = node.definition_hash + "|" + ",".join(node.outputs)
+    if isinstance(node, (RouteNode, IfElseNode)):
+        # A cached routing decision is only meaningful for the same routing
+        # configuration (ordered targets, fallback), not just the same function.
+        identity += "|" + ",".join(str(t) for t in node.targets) + "|" + str(getattr(node, "fallback", None))
     cache_key = compute_cache_key(identity, node.map_inputs_to_params(inputs))
     if not cache_key:
         return "", None
